@@ -237,7 +237,7 @@ def check_assumptions(prop_id):
         if "Closed under the global context" in txt:
             discharged += 1
             continue
-        used = set(re.findall(r"^([A-Za-z_][\w.]*)\s*:", txt, flags=re.M))
+        used = set(re.findall(r"^([A-Za-z_][\w.]*)\s*(?::|$)", txt, flags=re.M)) - {"Axioms"}
         bad = used - ALLOWED_AXIOMS
         axioms |= used
         if bad:
